@@ -48,7 +48,10 @@ mut('C20', 'wrap-separator-inside-value', X, "        attr_length += 2 + len(att
 # ---- C18 (cachestore) ------------------------------------------------------------------
 C = 'giscanner/cachestore.py'
 T = 'giscanner/transformer.py'
-mut('C18', 'D7-reintroduced-key-is-path-as-spelled', C, "        filename = os.path.abspath(filename)\n", "")
+mut('C18', 'D7-reintroduced-key-is-path-as-spelled', C, "        filename = self._version + os.path.abspath(filename)\n", "        filename = self._version + filename\n")
+mut('C18', 'D8-reintroduced-entry-names-without-version', C, "        filename = self._version + os.path.abspath(filename)\n", "        filename = os.path.abspath(filename)\n")
+mut('C18', 'entry-names-sha256', C, "hexdigest = hashlib.sha1(filename.encode('utf-8')).hexdigest()", "hexdigest = hashlib.sha256(filename.encode('utf-8')).hexdigest()",
+    expect=0, note='another naming scheme for entries: the harness learns entry names from the code and must NOT flag this')
 mut('C18', 'D1-reintroduced', C, "if not self._cache_is_valid(fd.fileno(), filename):", "if not self._cache_is_valid(store_filename, filename):")
 mut('C18', 'D2-reintroduced', C, "if e.errno in (errno.EACCES, errno.ENOENT):\n                self._remove_filename(tmp_filename)", "if e.errno == errno.EACCES:\n                self._remove_filename(tmp_filename)")
 mut('C18', 'D3-reintroduced', T, "                self._cachestore.store(filename, parser, mtime_ns)", "                self._cachestore.store(filename, parser)")
